@@ -510,3 +510,132 @@ pub fn foreign_attrs() -> Vec<&'static str> {
         "#[doc(hidden)]",
     ]
 }
+
+// ------------------------------------------------------------------ suggestion corpus (C17)
+
+fn opt(name: &str) -> Field {
+    Field::new(name, Ty::OptU32)
+}
+
+pub fn sugg_corpus() -> Vec<Program> {
+    let mut out = vec![];
+    let st = |fields: Vec<Field>| Decl::Struct(StructDecl::new(Trait::FromMeta, fields));
+    // P1: plain / renamed / skipped / multiple
+    {
+        let mut ren = opt("ipsum");
+        ren.rename = Some("dolor".into());
+        let mut sk = Field::new("amet", Ty::U32);
+        sk.skip = true;
+        let mut mu = Field::new("sit", Ty::U32);
+        mu.multiple = true;
+        out.push(Program { decls: vec![st(vec![opt("lorem"), ren, sk, mu])], root: 0, family: "sugg flat-struct".into() });
+    }
+    // P2: flatten depth 1, skipped member inside the child
+    {
+        let mut sk = Field::new("secret", Ty::U32);
+        sk.skip = true;
+        let mut fl = Field::new("inner", Ty::Struct(1));
+        fl.flatten = true;
+        out.push(Program { decls: vec![st(vec![opt("first"), opt("last_name"), fl]), st(vec![opt("lorem"), opt("example"), sk])], root: 0, family: "sugg flatten1".into() });
+    }
+    // P3: flatten depth 2 with overlapping names
+    {
+        let mut fb = Field::new("b", Ty::Struct(2));
+        fb.flatten = true;
+        let mut fa = Field::new("a", Ty::Struct(1));
+        fa.flatten = true;
+        out.push(Program {
+            decls: vec![st(vec![opt("alpha"), opt("color_map"), fa]), st(vec![opt("beta_x"), opt("alpha_ray"), fb]), st(vec![opt("gamma_ray"), opt("colour")])],
+            root: 0,
+            family: "sugg flatten2".into(),
+        });
+    }
+    // P3b: flatten depth 3
+    {
+        let mut f3 = Field::new("c", Ty::Struct(3));
+        f3.flatten = true;
+        let mut f2 = Field::new("b", Ty::Struct(2));
+        f2.flatten = true;
+        let mut f1 = Field::new("a", Ty::Struct(1));
+        f1.flatten = true;
+        out.push(Program {
+            decls: vec![st(vec![opt("relax"), f1]), st(vec![opt("relay"), f2]), st(vec![opt("realx"), f3]), st(vec![opt("lax_real"), opt("exa")])],
+            root: 0,
+            family: "sugg flatten3".into(),
+        });
+    }
+    // P4: nested (non-flatten) child inside the flatten child
+    {
+        let mut fl = Field::new("inner", Ty::Struct(1));
+        fl.flatten = true;
+        out.push(Program {
+            decls: vec![st(vec![opt("blast"), opt("firsts"), fl]), st(vec![Field::new("parent", Ty::Struct(2)), opt("example")]), st(vec![opt("first"), opt("last")])],
+            root: 0,
+            family: "sugg nested-in-flatten".into(),
+        });
+    }
+    // P6: skip and flatten in the same receiver
+    {
+        let mut sk = Field::new("amet", Ty::U32);
+        sk.skip = true;
+        let mut fl = Field::new("inner", Ty::Struct(1));
+        fl.flatten = true;
+        out.push(Program { decls: vec![st(vec![opt("lorem"), sk, fl]), st(vec![opt("ipsum"), opt("ame")])], root: 0, family: "sugg skip+flatten".into() });
+    }
+    // P5: enum with renamed and skipped variants (root)
+    {
+        let variants = vec![
+            Variant { rust: "Alpha".into(), rename: None, skip: false, word: None, body: VBody::Unit },
+            Variant { rust: "Beta".into(), rename: Some("beta_x".into()), skip: false, word: None, body: VBody::Unit },
+            Variant { rust: "Alphb".into(), rename: None, skip: true, word: None, body: VBody::Unit },
+            Variant { rust: "GammaRay".into(), rename: None, skip: false, word: None, body: VBody::Newtype(Ty::U32) },
+        ];
+        out.push(Program { decls: vec![Decl::Enum(EnumDecl { rule: None, from_word: false, from_none: false, allow_unknown: None, variants })], root: 0, family: "sugg enum".into() });
+    }
+    out
+}
+
+/// All strings within `dist` edits (insert / delete / substitute over a 6-letter alphabet,
+/// adjacent transposition) of `name`.
+pub fn edits(name: &str, dist: usize) -> Vec<String> {
+    const ALPHA: [char; 6] = ['a', 'e', 'l', 'r', '_', 'x'];
+    let mut all: std::collections::BTreeSet<String> = std::collections::BTreeSet::new();
+    let mut frontier: Vec<String> = vec![name.to_string()];
+    all.insert(name.to_string());
+    for _ in 0..dist {
+        let mut next = vec![];
+        for w in &frontier {
+            let cs: Vec<char> = w.chars().collect();
+            for i in 0..cs.len() {
+                let mut d = cs.clone();
+                d.remove(i);
+                next.push(d.iter().collect::<String>());
+                for a in ALPHA {
+                    let mut sub = cs.clone();
+                    sub[i] = a;
+                    next.push(sub.iter().collect());
+                }
+                if i + 1 < cs.len() {
+                    let mut tr = cs.clone();
+                    tr.swap(i, i + 1);
+                    next.push(tr.iter().collect());
+                }
+            }
+            for i in 0..=cs.len() {
+                for a in ALPHA {
+                    let mut ins = cs.clone();
+                    ins.insert(i, a);
+                    next.push(ins.iter().collect());
+                }
+            }
+        }
+        frontier = vec![];
+        for n in next {
+            let valid = !n.is_empty() && !n.starts_with(|c: char| c.is_ascii_digit()) && n != "_";
+            if valid && all.insert(n.clone()) {
+                frontier.push(n);
+            }
+        }
+    }
+    all.into_iter().collect()
+}
